@@ -29,6 +29,8 @@ type DecidedBlock struct {
 	Resp        *abci.ResponseFinalizeBlock
 	ELCalls     []EngineCall // engine calls of the reference execution
 	Vals        *cmttypes.ValidatorSet // the set this block was proposed under
+	Honest      bool // built by an honest proposer without engine trouble
+	WellBehaved bool // ... on a payload whose user operations all passed the contract guards
 }
 
 type Cmt struct {
